@@ -263,6 +263,8 @@ class Engine:
         return tuple(x.key if isinstance(x, T.Ty) else x for x in key)
 
     def field_type(self, name):
+        if self.cur is not None and name in self.cur.fields:
+            return self.ptype(self.cur.fields[name])
         if name not in self.prop.fields:
             raise Unsupported('field %r has no declared type' % name)
         return self.ptype(self.prop.fields[name])
